@@ -19,7 +19,7 @@ from .absint import FALSE, NONE, TOP, TRUE, Undecided, exc, heap_key, is_handle,
 from .astutil import FUNC_TYPES, attr_chain, dotted
 from .effects import EffectDomain, exc_info_of, is_generator
 
-CALLABLE_TAGS = ("func", "method", "boundmethod", "bound", "partial", "builtin", "listappend", "attrgetter", "itemgetter", "methodcaller", "classref", "ctorref", "userfn", "setmethod", "decoderfactory", "decodermethod", "strmethod")
+CALLABLE_TAGS = ("func", "method", "boundmethod", "bound", "partial", "builtin", "listappend", "attrgetter", "itemgetter", "methodcaller", "classref", "ctorref", "userfn", "setmethod", "decoderfactory", "decodermethod", "strmethod", "dictmethod")
 
 
 def is_inst(v):
@@ -176,6 +176,14 @@ class ObjectDomain(EffectDomain):
                     return self._eval_class_expr(interp, got[0], got[1], st, fr)   # ClassName.table
         if len(chain) == 2 and chain[0] in ("str", "bytes") and chain[1] in self.PURE_STR_METHODS and not st.has(fr.local(chain[0])):
             return [val(("strmethod", chain[1]), st)]   # str.strip & co. as functions: the method applied to their first argument
+        if len(chain) == 2 and st.has(fr.local(chain[0])) and st.get(fr.local(chain[0])) == NONE and fr.local(chain[0]) != fr.self_key:
+            return [exc(("exc", "AttributeError"), st)]   # None.<anything>
+        if len(chain) == 2 and chain[1] in ("get", "items", "keys", "values") and st.has(fr.local(chain[0])):
+            held = st.get(fr.local(chain[0]))
+            where = heap_key(held) if is_handle(held) else fr.local(chain[0])
+            content = st.get(where, None)
+            if isinstance(content, tuple) and content[:1] == ("kwdict",):
+                return [val(("dictmethod", where, chain[1]), st)]   # <a dict>.get taken as a value: bound to that very dict
         if len(chain) == 2 and chain[1] in self.SET_METHODS and st.has(fr.local(chain[0])):
             # <a set>.update taken as a value (to be called later): a method bound to that very set
             held = st.get(fr.local(chain[0]))
@@ -208,6 +216,8 @@ class ObjectDomain(EffectDomain):
         if not is_inst(base) and not (base == ("self",) and chain[0] != fr.selfname):
             if fr.instance is None and fr.selfname and chain[0] == fr.selfname:
                 return self._root_attr(interp, chain, st, fr)
+            if len(chain) == 2 and isinstance(base, tuple) and base[:1] in (("tuple",), ("decoder",)):
+                return self.attr_of_value(interp, base, chain[1], st, fr)   # a namedtuple field / a method of a decoder, read through a variable
             return None
         cur = [val(base, st)]
         for i, attr in enumerate(chain[1:]):
@@ -229,6 +239,10 @@ class ObjectDomain(EffectDomain):
             return [val(("kwdict", tuple((k, unbox_deep(v, st)) for k, v in items)), st)]
         if attr == "__class__" and is_inst(value):
             return [val(("classref", value[2]), st)]
+        if isinstance(value, tuple) and value[:1] == ("tuple",):
+            hits = {tuple(fields) for fields in self._module_namedtuples(fr).values() if attr in fields and len(fields) == len(value) - 1}
+            if len(hits) == 1:
+                return [val(value[1 + list(hits.pop()).index(attr)], st)]   # a field of a namedtuple declared in this module
         if isinstance(value, tuple) and value[:1] == ("decoder",) and attr == "decode":
             return [val(("decodermethod", value), st)]
         if is_inst(value):
@@ -639,6 +653,28 @@ class ObjectDomain(EffectDomain):
             out.append(r if r.kind == "exc" else val(inst, r.state))
         return out
 
+    _NT_CACHE = {}
+
+    def _module_namedtuples(self, fr):
+        """{name: [field, ...]} for `Name = namedtuple("Name", fields)` declarations at the top of the frame's module."""
+        mod = getattr(fr.func, "_module", None)
+        tree = getattr(mod, "tree", None)
+        if tree is None:
+            return {}
+        got = self._NT_CACHE.get(id(tree))
+        if got is None:
+            table = {}
+            for s_ in tree.body:
+                if isinstance(s_, ast.Assign) and len(s_.targets) == 1 and isinstance(s_.targets[0], ast.Name) and isinstance(s_.value, ast.Call) \
+                        and (dotted(s_.value.func) or "").split(".")[-1] == "namedtuple" and len(s_.value.args) >= 2:
+                    spec = s_.value.args[1]
+                    if isinstance(spec, ast.Constant) and isinstance(spec.value, str):
+                        table[s_.targets[0].id] = spec.value.replace(",", " ").split()
+                    elif isinstance(spec, (ast.List, ast.Tuple)) and all(isinstance(e, ast.Constant) for e in spec.elts):
+                        table[s_.targets[0].id] = [e.value for e in spec.elts]
+            got = self._NT_CACHE[id(tree)] = (tree, table)
+        return got[1]
+
     def _namedtuple_fields(self, ci):
         for c in self.classes.mro(ci):
             for b in c.base_exprs:
@@ -741,6 +777,19 @@ class ObjectDomain(EffectDomain):
                 n_ = st.get("ev.alloc", 0)
                 return [val(obj + (n_,), st.set("ev.alloc", n_ + 1))]
             return [val(obj, st)]
+        if tag == "dictmethod" and not kw:
+            cur = st.get(fn[1], None)
+            if isinstance(cur, tuple) and cur[:1] == ("kwdict",):
+                if fn[2] == "get" and 1 <= len(pos) <= 2:
+                    ok_, name = self._dkey(unbox_deep(pos[0], st))
+                    return [val(dict(cur[1]).get(name, pos[1] if len(pos) > 1 else NONE) if ok_ else TOP, st)]
+                if fn[2] == "items" and not pos:
+                    return [val(("kwitems", cur[1]), st)]
+                if fn[2] == "keys" and not pos:
+                    return [val(("tuple",) + tuple(self._dkey_abs(k) for k, _ in cur[1]), st)]
+                if fn[2] == "values" and not pos:
+                    return [val(("tuple",) + tuple(v for _, v in cur[1]), st)]
+            return [val(TOP, st)]
         if tag == "strmethod" and pos and not kw:
             pys = [self._py(unbox_deep(v, st)) for v in pos]
             if all(ok for ok, _ in pys) and isinstance(pys[0][1], (str, bytes)):
@@ -1039,6 +1088,22 @@ class ObjectDomain(EffectDomain):
                 return [r if r.kind == "exc" else val(("classref", r.value[2]), r.state) for r in got]
             if got and all(r.kind == "exc" or self._py(r.value)[0] for r in got):
                 return [r if r.kind == "exc" else val(("pytype", type(self._py(r.value)[1]).__name__), r.state) for r in got]
+        if isinstance(f_, ast.Name) and not st.has(fr.local(f_.id)) and f_.id in self._module_namedtuples(fr) and not any(isinstance(a, ast.Starred) for a in call.args) \
+                and all(k.arg is not None for k in call.keywords):
+            # a module-level namedtuple: its instances are tuples whose positions have names
+            fields = self._module_namedtuples(fr)[f_.id]
+            out = []
+            for r in interp.eval_list(list(call.args) + [k.value for k in call.keywords], st, fr):
+                if r.kind == "exc":
+                    out.append(r)
+                    continue
+                given = dict(zip(fields, r.value[: len(call.args)]))
+                given.update({k.arg: v for k, v in zip(call.keywords, r.value[len(call.args):])})
+                if set(given) != set(fields) or len(call.args) > len(fields):
+                    out.append(exc(("exc", "TypeError"), r.state))
+                else:
+                    out.append(val(("tuple",) + tuple(given[f] for f in fields), r.state))
+            return out
         if d in ("nullcontext", "contextlib.nullcontext") and len(call.args) <= 1 and not call.keywords:
             return [r if r.kind == "exc" else val(("nullcontext", r.value[0] if r.value else NONE), r.state) for r in interp.eval_list(list(call.args), st, fr)]
         # functools.partial / operator helpers as values
@@ -1080,6 +1145,15 @@ class ObjectDomain(EffectDomain):
                     out.append(val(TOP, s2))
                 else:
                     out.append(val(("attrgetter", tuple(v[1] for v in pos)), s2))
+            return out
+        if d == "zip" and call.args and not call.keywords and any(isinstance(a, ast.Starred) for a in call.args):
+            out = []
+            for bad, pos, kw, s2 in self._call_args(interp, call, st, fr):
+                if bad is not None:
+                    out.append(bad)
+                    continue
+                seqs = [interp._exact_elements(unbox_deep(v, s2)) for v in pos] if pos is not None else [None]
+                out.append(val(TOP if any(x is None for x in seqs) else ("tuple",) + tuple(("tuple",) + tuple(t) for t in zip(*seqs)), s2))
             return out
         if d == "zip" and call.args and not call.keywords and not any(isinstance(a, ast.Starred) for a in call.args):
             out = []
